@@ -37,18 +37,16 @@ Definition node_bonding (a : attrs) : list pystr :=
   end.
 
 (** ------------------------------------------------------------------ fragment graphs *)
-(** class 3 (coarse fragments only): a node whose own name (`atomname`, set by read_fragment_cgsmiles)
-    differs from the fragment's name (`fragname`): write_graph(smiles_format=False) writes `fragname` *)
+(** (repaired by fix 6d8cc68; excuses nothing any more) former class 3 (coarse fragments only): a node whose own
+    name (`atomname`, set by read_fragment_cgsmiles) differs from the fragment's name (`fragname`):
+    write_graph(smiles_format=False) wrote `fragname` *)
 Definition cls_coarse_renamed (g : graph) : bool :=
   existsb (fun n => match aget (S "atomname") (na n), aget (S "fragname") (na n) with
                     | Some x, Some y => negb (pyval_eqb x y)
                     | _, _ => false end) g.
-(** classes of one fragment entry; 0 = none (1, 2, 4, 5 were repaired: 1a5deb0, 0d0f450, be4ff6e, dd9a0c2); 6 = the open C07 class on a coarse fragment graph *)
-Definition class_entry (smiles_format : bool) (g : graph) (tr : list (Z * Z)) : nat :=
-  if smiles_format then 0%nat
-  else if cls_coarse_renamed g then 3%nat
-  else if cls_pct_marker g tr then 6%nat
-  else 0%nat.
+(** classes of one fragment entry; 0 = none.  Every class of a single entry was repaired (1: 1a5deb0, 2: 0d0f450,
+    3: 6d8cc68, 4: be4ff6e, 5: dd9a0c2, 6: b681517) *)
+Definition class_entry (smiles_format : bool) (g : graph) (tr : list (Z * Z)) : nat := 0%nat.
 Fixpoint first_nonzero (l : list nat) : nat :=
   match l with [] => 0%nat | 0%nat :: r => first_nonzero r | k :: _ => k end.
 Definition class_entries (smiles_format : bool) (l : list frag_entry) : nat :=
